@@ -825,6 +825,9 @@ impl Model {
                     });
                     self.ops[op].st = St::Done;
                     self.live_handles -= 1;
+                    if let Some(sb) = self.ops[op].sub {
+                        self.subs[sb].receiver_alive = false;
+                    }
                     self.hit("op-after-context-gone");
                 } else {
                     self.queue.push_back(Msg::First(op));
